@@ -159,7 +159,8 @@ func (ga *GroupAggregator) isNumericAggregator(aggType AggregateType) bool {
 // shouldAllowNullValues 判断聚合函数是否应该允许NULL值
 func (ga *GroupAggregator) shouldAllowNullValues(aggType AggregateType) bool {
 	// FIRST_VALUE和LAST_VALUE函数应该允许NULL值，因为它们需要记录第一个/最后一个值，即使是NULL
-	return aggType == FirstValue || aggType == LastValue
+	// (the type keeps the letter case the function was written in)
+	return strings.EqualFold(string(aggType), string(FirstValue)) || strings.EqualFold(string(aggType), string(LastValue))
 }
 
 func (ga *GroupAggregator) Add(data any) error {
